@@ -189,6 +189,57 @@ func VerifC12IntArgs() {
 	a, _ := AsArray(resp, nil)
 	b, _ := AsBulkBytes(a[0], nil)
 	verifAssert(string(b) == strconv.FormatInt(n, 10), "C12.intarg.value")
+	verifC12NumArgs()
+}
+
+// verifC12NumArgs: numeric arguments whose decimal text has every length from 1 to 20+ characters
+// (powers of ten and their predecessors, the 64-bit extremes, long floats), mixed with byte
+// arguments in one command so that scratch buffers are reused: the decoder returns the decimal text.
+func verifC12NumArgs() {
+	var args []interface{}
+	var want []string
+	p := int64(1)
+	for k := 0; k < 19; k++ {
+		for _, v := range []int64{p - 1, p, -p} {
+			args = append(args, v)
+			want = append(want, strconv.FormatInt(v, 10))
+		}
+		args = append(args, []byte("x"))
+		want = append(want, "x")
+		if k < 18 {
+			p *= 10
+		}
+	}
+	for _, v := range []int64{1<<63 - 1, -1 << 63, 1715000000123456789} {
+		args = append(args, v)
+		want = append(want, strconv.FormatInt(v, 10))
+	}
+	for _, v := range []uint64{1<<64 - 1, 10000000000000000000, 9999999999999999999} {
+		args = append(args, v)
+		want = append(want, strconv.FormatUint(v, 10))
+	}
+	for _, v := range []int{1 << 40, -(1 << 62)} {
+		args = append(args, v)
+		want = append(want, strconv.Itoa(v))
+	}
+	args = append(args, []byte("tail"), "s")
+	want = append(want, "tail", "s")
+	var buf bytes.Buffer
+	w := proto.NewWriter(&buf, 64)
+	verifAssert(w.WriteArgs(args) == nil && w.Flush() == nil, "C12.intarg.write")
+	d := NewDecoder(bufio.NewReader(bytes.NewReader(buf.Bytes())))
+	resp, off, err := MustDecodeOpt(d)
+	verifAssert(err == nil, "C12.intarg.decode")
+	if err != nil {
+		return
+	}
+	verifAssert(off == int64(buf.Len()), "C12.intarg.offset")
+	a, _ := AsArray(resp, nil)
+	verifAssert(len(a) == len(want), "C12.intarg.count")
+	for i := 0; i < len(a) && i < len(want); i++ {
+		b, _ := AsBulkBytes(a[i], nil)
+		verifAssert(string(b) == want[i], "C12.intarg.value")
+	}
 }
 
 // VerifC12ManyArgs: commands with many arguments (argument counts at and around every power of two
